@@ -685,7 +685,32 @@ def parse_protocol(txt):
         if a is None or b is None:
             return []
         return sorted(x.lower() for ln in lines[a:b] for x in PV_RE.findall(ln))
-    return {"prestart_counts": (int(m.group(1)), int(m.group(2))) if m else None,
+    # the ordered sequence of protocol events between PreStart and PostEnd (region statements collapse to "Body")
+    seq = []
+    call_re = re.compile(r'extract_psy_data\s*%\s*(\w+)\s*(?:\(\s*"([^"]*)"\s*,\s*(\w+)\s*\))?', re.I)
+    if i_start is not None:
+        for ln in lines[i_start:(i_postend + 1) if i_postend is not None else len(lines)]:
+            t = ln.strip()
+            if not t or t.startswith("!"):
+                continue
+            cm = call_re.search(t)
+            if cm and "extract_psy_data" in t:
+                name = cm.group(1).lower()
+                if name == "prestart":
+                    pm = PRESTART_RE.search(t)
+                    seq.append(("PreStart", int(pm.group(1)), int(pm.group(2))) if pm else ("Unknown", t))
+                elif name in ("predeclarevariable", "providevariable") and cm.group(2) is not None:
+                    seq.append(("PreDeclare" if name.startswith("pre") else "Provide", cm.group(3).lower(),
+                                cm.group(2).lower() != cm.group(3).lower()))
+                elif name in ("preenddeclaration", "preend", "poststart", "postend"):
+                    seq.append(({"preenddeclaration": "PreEndDeclaration", "preend": "PreEnd", "poststart": "PostStart",
+                                 "postend": "PostEnd"}[name],))
+                else:
+                    seq.append(("Unknown", t))
+            elif not seq or seq[-1] != ("Body",):
+                seq.append(("Body",))
+    return {"sequence": seq,
+            "prestart_counts": (int(m.group(1)), int(m.group(2))) if m else None,
             "declared": sorted(x.lower() for ln in lines for x in DECL_RE.findall(ln)),
             "pre": provided(i_start, i_preend), "post": provided(i_poststart, i_postend),
             "calls": {k: v is not None for k, v in (("PreStart", i_start), ("PreEndDeclaration", first(r"PreEndDeclaration")),
@@ -1148,6 +1173,7 @@ def run(ctx):
 
     n_optdiff = [0]
     n_proto = [0]
+    proto_cases = []
     regions = []        # one per region: {"coq": term, "variants": [variant dict ...], meta}
     n_refused = n_oos = 0
 
@@ -1188,6 +1214,7 @@ def run(ctx):
                                            "extract_node": ex[0], "call_tree_utils": ctu_on[0]}, no_input=True)
                     elif ex[0] == "ok":
                         # direct oracle on the lowered / generated code
+                        proto_cases.append((ctu_on[1], ctu_on[2], ex[1]["sequence"], nm, rtxt, txt))
                         errs = protocol_errors(ex[1], ctu_on[1], ctu_on[2])
                         ctx.hist("protocol_lists", "in%d out%d" % (min(len(ctu_on[1]), 2), min(len(ctu_on[2]), 2)))
                         if errs:
@@ -1366,6 +1393,30 @@ def run(ctx):
                        else "proof obligations of Properties/C12.v", "proof_report": rep if not ok else None,
                        "first_differing_case": first, "n_differing": len(mism)}, no_input=True)
     ctx.cov["disagreements_checked"] += calltree_stream(ctx)
+    # the emitted call sequence = the Coq model of the lowering (C12/Protocol.v: lower_extract), event by event
+    def pc(t, nm_):
+        if t[0] == "PreStart":
+            return "(PreStart %d %d)" % (t[1], t[2])
+        if t[0] in ("PreDeclare", "Provide"):
+            return "(%s %d%%nat %s)" % (t[0], nm_.get(t[1]), "true" if t[2] else "false") if t[1] in nm_.ids else None
+        return t[0] if t[0] != "Unknown" else None
+    pcs, pmeta = [], []
+    for ins_, outs_, seq, nm_, rtxt_, txt_ in proto_cases:
+        toks = [pc(t, nm_) for t in seq]
+        if None in toks:
+            toks = ["PostEnd"]                     # unknown call / unknown variable: cannot agree with the model
+        pcs.append("(%s, %s, [%s])" % (core.coq_list("%d%%nat" % nm_.get(x) for x in ins_),
+                                       core.coq_list("%d%%nat" % nm_.get(x) for x in outs_), "; ".join(toks)))
+        pmeta.append((ins_, outs_, seq, rtxt_, txt_))
+    pbad = ctx.coq_eval_failing("From PV Require Import Fort.Syntax C12.Protocol.", "list name * list name * list pcall",
+                                "protocol_agrees", pcs, shard=400) if pcs else []
+    ctx.notes["protocol_sequences_compared"] = len(pcs)
+    ctx.log("extraction protocol sequences vs Coq lower_extract: %d compared, %d differ" % (len(pcs), len(pbad)))
+    for i in pbad[:2]:
+        ctx.violation({"property": "C12", "what": "the sequence of PSyData calls in the generated code differs from the modelled "
+                       "lowering (C12.Protocol.lower_extract reported_inputs reported_outputs)", "routine": pmeta[i][4],
+                       "region": pmeta[i][3], "reported_inputs": pmeta[i][0], "reported_outputs": pmeta[i][1],
+                       "generated_sequence": pmeta[i][2]})
     for r in regions[n_wit:n_wit + 3]:
         v = r["variants"][-1]
         ctx.sample({"region": r["region"], "shape_reads": v["sh"], "inputs": v["ins"], "outputs": v["outs"],
